@@ -287,3 +287,143 @@ def run(ctx):
         for q in ('helper.h160_to_p2wpkh_address', 'helper.h256_to_p2wsh_address'):
             ob.require(enc in p.reachable_from([p.get_function(q)]), '%s encodes through bech32.encode (which re-validates its output)'
                        % q.split('.')[-1], p.get_function(q).where)
+
+
+def _generator_constants(p):
+    """The five generator words of bech32_polymod as written in the source (a list/tuple of five integer constants inside
+    the function, or a module-level one it names)."""
+    import ast as _ast
+    fi = p.get_function('bech32.bech32_polymod')
+    cands = []
+    for n in _ast.walk(fi.node):
+        if isinstance(n, (_ast.List, _ast.Tuple)) and len(n.elts) == 5 and all(isinstance(e, _ast.Constant) and isinstance(e.value, int) for e in n.elts):
+            cands.append([e.value for e in n.elts])
+    if not cands:
+        for name, vals in fi.module.assigns.items():
+            for v in vals:
+                if isinstance(v, (_ast.List, _ast.Tuple)) and len(v.elts) == 5 and all(isinstance(e, _ast.Constant) and isinstance(e.value, int) for e in v.elts) \
+                        and any(isinstance(x, _ast.Name) and x.id == name for x in _ast.walk(fi.node)):
+                    cands.append([e.value for e in v.elts])
+    return cands[0] if len(cands) == 1 else None
+
+
+def thorough(ctx):
+    """C11.DISTANCE: the error-detection clause, decided by exhaustive enumeration over the checksum's linear structure for the
+    generator words and the Bech32m constant *as written in the repository* (C11.REF shows that the code is the BIP173
+    algorithm over these constants; here the algorithm with these constants is shown to have the distance the property
+    states).  Nothing of the repository is executed: the polymod step below is the reference algorithm, parametrised by the
+    extracted constants.  An error pattern e (values XOR-ed onto symbols) changes the polymod of a string by the linear
+    residue syn(e); it goes undetected iff syn(e) = 0 (same constant) or syn(e) = 1 xor BECH32M_CONST (the other constant)."""
+    p = ctx.p
+    fi = p.get_function('bech32.bech32_polymod')
+    with ctx.obligation('C11.DISTANCE', 'bech32 checksum: every error pattern of weight <= 4', None, fi.where) as ob:
+        gen = _generator_constants(p)
+        ev = Evaluator(p, 'ecdsa')
+        mconst = ev.module_const('bech32', 'BECH32M_CONST')
+        if gen is None or not (T.is_const(mconst) and isinstance(mconst[1], int)):
+            ob.undecided('generator words / Bech32m constant not found as constants in the source', fi.where)
+            return
+        D = 1 ^ mconst[1]
+        N = 88          # data part incl. checksum of a 90-character string with the shortest prefix
+
+        def step(chk, value):
+            top = chk >> 25
+            chk = (chk & 0x1ffffff) << 5 ^ value
+            for i in range(5):
+                if (top >> i) & 1:
+                    chk ^= gen[i]
+            return chk
+        # syn[p][v]: residue of the error value v at the symbol p places before the end (linear part: start from 0)
+        syn = []
+        base = {}
+        for b in range(5):
+            c = step(0, 1 << b)
+            col = [c]
+            for _ in range(N - 1):
+                c = step(c, 0)
+                col.append(c)
+            base[b] = col
+        for pos in range(N):
+            row = [0] * 32
+            for v in range(1, 32):
+                x = 0
+                for b in range(5):
+                    if (v >> b) & 1:
+                        x ^= base[b][pos]
+                row[v] = x
+            syn.append(row)
+        singles = {}
+        for pos in range(N):
+            for v in range(1, 32):
+                singles.setdefault(syn[pos][v], []).append(pos)
+        ob.evaluations += N * 31
+        ob.require(0 not in singles, 'a single substituted character is always detected (no weight-1 pattern has residue 0)', fi.where)
+        ob.require(all(len(v_) == 1 for v_ in singles.values()), 'single residues are pairwise distinct (no undetected pattern of two '
+                   'changes at one or two positions)', fi.where)
+        # (a) one checksum constant: no pattern of weight <= 4 has residue 0, over all 88 positions
+        seen = bytearray(1 << 27)       # bitmap over the 30-bit residues of all weight-2 patterns
+        bad2 = bad3 = bad4 = 0
+        first_bad = None
+        npairs = 0
+        for p1 in range(N):
+            r1 = syn[p1]
+            for p2 in range(p1 + 1, N):
+                r2 = syn[p2]
+                for v1 in range(1, 32):
+                    a = r1[v1]
+                    for v2 in range(1, 32):
+                        x = a ^ r2[v2]
+                        npairs += 1
+                        if x == 0:
+                            bad2 += 1
+                            first_bad = first_bad or ('weight 2', p1, p2)
+                        hit = singles.get(x)
+                        if hit and hit[0] != p1 and hit[0] != p2:
+                            bad3 += 1
+                            first_bad = first_bad or ('weight 3', p1, p2, hit[0])
+                        byte, bit = x >> 3, 1 << (x & 7)
+                        if seen[byte] & bit:
+                            bad4 += 1
+                            first_bad = first_bad or ('weight 4 (two weight-2 patterns with one residue)', p1, p2)
+                        else:
+                            seen[byte] |= bit
+        ob.evaluations += npairs
+        ob.require(bad2 == 0, 'every substitution of two characters is detected', fi.where, found=first_bad)
+        ob.require(bad3 == 0, 'every substitution of three characters is detected', fi.where, found=first_bad)
+        ob.require(bad4 == 0, 'every substitution of four characters is detected under one checksum constant (two different '
+                   'two-character patterns never share a residue)', fi.where, found=first_bad)
+        # (b) across the two constants: a pattern with residue 1 xor BECH32M_CONST turns a valid Bech32 checksum into a valid
+        # Bech32m one (and back).  decode() pairs the constant with the witness version (C11.REF), so such a pattern is accepted
+        # only if it also switches the version symbol - the first data symbol, position n-1 of an address with n symbols -
+        # between 0 and non-zero.  For every length a segwit address can have (program of 2..40 bytes: n = 1 + ceil(8L/5) + 6)
+        # no pattern of weight <= 3 with that residue may include position n-1; with four changes it may (the property's
+        # stated exception).
+        lengths = sorted({1 + (8 * L_ + 4) // 5 + 6 for L_ in range(2, 41)})
+        cross = []
+        for n_ in lengths:
+            top = n_ - 1
+            below = {}
+            for pos in range(top):
+                for v in range(1, 32):
+                    below[syn[pos][v]] = pos
+            for v in range(1, 32):
+                t1 = syn[top][v] ^ D
+                if t1 == 0:
+                    cross.append((n_, 'weight 1'))
+                if t1 in below:
+                    cross.append((n_, 'weight 2', below[t1]))
+                for pos in range(top):
+                    rp = syn[pos]
+                    for v1 in range(1, 32):
+                        h = below.get(t1 ^ rp[v1])
+                        if h is not None and h != pos:
+                            cross.append((n_, 'weight 3', pos, h))
+                ob.evaluations += 31 * top
+        ob.require(not cross, 'no substitution of up to three characters that switches the version symbol between 0 and non-zero '
+                   'turns one checksum constant into the other, at any length a segwit address can have (%d..%d symbols)'
+                   % (lengths[0], lengths[-1]), fi.where, found=cross[:3])
+        ob.note('enumerated %d single and %d two-character error patterns over %d symbol positions; three- and four-character '
+                'patterns decided by residue collisions (linearity); cross-constant patterns through the version symbol checked '
+                'for %d address lengths' % (N * 31, npairs, N, len(lengths)))
+        ctx.extra['bech32_distance'] = {'positions': N, 'single_patterns': N * 31, 'pair_patterns': npairs,
+                                        'generator': ['0x%08x' % g for g in gen], 'bech32m_const': '0x%08x' % mconst[1]}
